@@ -152,12 +152,80 @@ def hint_protocol(m, K, drain_segs, member):
     return None
 
 
+_WRAPPERS = {}
+
+
+def receive_wrapper(name):
+    """Is `name` a library function that wraps one receive: on every path it calls messageq_receive(arg0) once, returns 0 exactly
+    when that returned NULL, and otherwise reads the slot (copies it out) before messageq_release(arg0, slot) and returns non-zero?
+    Returns True / a string saying what fails / None if there is no such function."""
+    if name in _WRAPPERS:
+        return _WRAPPERS[name]
+    res = None
+    for unit in build.library_units():
+        # (the unit as written: the analysis view of messageq.c has the queue's API functions inlined into one another)
+        try:
+            mw = build.load_unit(unit, "default", inline_except=None)
+        except AnalysisError:
+            continue
+        if not mw.has_fn(name) or not mw.fn(name).blocks:
+            continue
+        fw = mw.fn(name)
+        if not any(c.callee == "messageq_receive" for c in fw.calls()):
+            break           # not a receive wrapper at all: nothing to say
+        res = True
+        try:
+            ps = [p for p in paths.enumerate_paths(fw, mw, loop_bound=1) if not paths.is_assert_fail_path(p)]
+        except AnalysisError as e:
+            res = str(e)
+            break
+        for p in ps:
+            rcv = [(k, e) for k, e in enumerate(p.events) if e.kind == "call" and e.callee == "messageq_receive"]
+            if len(rcv) != 1 or rcv[0][1].args[0] != ("arg", 0):
+                res = "%s does not call messageq_receive(its queue) exactly once on every path" % name
+                break
+            k0, e0 = rcv[0]
+            isnull = None
+            for c, taken, inst in p.conds:
+                cc = strip_casts(c)
+                if cc[0] == "icmp" and cc[1] in ("eq", "ne") and ("null",) in (cc[2], cc[3]) and e0.res in (cc[2], cc[3]):
+                    isnull = (cc[1] == "eq") == bool(taken)
+            r = strip_casts(p.ret) if p.ret is not None else None
+            if isnull is None or r is None or r[0] != "c":
+                res = "%s's result is not decided by whether the receive returned NULL" % name
+                break
+            if isnull != (r[2] == 0):
+                res = "%s returns %s on the path where the receive returned %s" % (name, r[2], "NULL" if isnull else "a message")
+                break
+            if not isnull:
+                rel = [k for k, e in enumerate(p.events) if e.kind == "call" and e.callee == "messageq_release" and len(e.args) > 1 and e.args[1] == e0.res]
+                rd = [k for k, e in enumerate(p.events) if k > k0 and ((e.kind == "load" and ptr_parts(e.ptr)[0] == e0.res) or
+                                                                         (e.kind == "memcpy" and e.val is not None and ptr_parts(e.val)[0] == e0.res))]
+                if len(rel) != 1 or not rd or max(rd) > rel[0]:
+                    res = "%s does not read the received slot and then release it (reads at %s, releases at %s)" % (name, rd, rel)
+                    break
+        break
+    _WRAPPERS[name] = res
+    return res
+
+
 def check_i4(chk, m, K):
     fn, segs = fib.fn_segments(m, "handle_atomic_runq")
     chk.note_fn(fn)
     exits = 0
+    wrappers = set()
     for s, p in segs:
-        rc = [(k, e, t) for k, e, t in [(k, e, None) for k, e in fib.calls_on(p) if e.callee == "messageq_receive"]]
+        for k, e in fib.calls_on(p):
+            if isinstance(e.callee, str) and e.callee != "messageq_receive" and not m.has_fn(e.callee) and e.args and K.queue_arg(e.args[0]) == "atomic_runq":
+                w = receive_wrapper(e.callee)
+                if w is True:
+                    wrappers.add(e.callee)
+                elif isinstance(w, str):
+                    chk.unknown("I4.drain-complete", "handle_atomic_runq", "the drain goes through %s, which is not recognised as a wrapper of "
+                                "one receive: %s" % (e.callee, w), e.inst.loc)
+                    return
+    for s, p in segs:
+        rc = [(k, e, t) for k, e, t in [(k, e, None) for k, e in fib.calls_on(p) if e.callee == "messageq_receive" or e.callee in wrappers]]
         if p.end == "ret":
             exits += 1
             # leaving the loop requires a NULL receive on this segment
@@ -168,6 +236,13 @@ def check_i4(chk, m, K):
                     if cc[0] == "icmp" and ("null",) in (cc[2], cc[3]) and e.res in (cc[2], cc[3]):
                         if (cc[1] == "eq") == bool(taken) or (cc[1] == "ne" and not taken):
                             got_null = True
+                    # a verified wrapper's result: 0 / false <=> the receive inside it returned NULL
+                    if e.callee in wrappers and paths.contains(cc, lambda x, r=e.res: x == r):
+                        try:
+                            if paths.cond_holds((c, taken, inst), {e.res: 0}) and not paths.cond_holds((c, taken, inst), {e.res: 1}):
+                                got_null = True
+                        except paths.NoValue:
+                            pass
             # ... or the queue was just observed empty through the queue's own observer (what receive would have found)
             if not got_null:
                 facts = fib.queue_empty_facts(p, K)
